@@ -55,7 +55,7 @@ PROPS["C11"] = dict(
 NOT_APPLICABLE = {}
 
 # hook commits in /repo (guard: cargo feature `verif`)
-HOOK_COMMITS = []
+HOOK_COMMITS = ["a7bbd44 (bft: read-only replica observer)", "bc9722d (network: facade over crate-private items)"]
 
 PROPS["C04"] = dict(
     title="Certificates are accepted exactly when genuinely backed by a quorum",
@@ -269,4 +269,22 @@ PROPS["C08"] = dict(
     stages=[dict(name="engine-stress", flavour="release", crate="eng")],
     floors={"quick": {"queue_next_block_calls": 5000, "read_backs": 20000, "max_queued_minus_persisted": 101, "side_channel_jumps": 10, "prunes": 10, "storage_failures_injected": 10, "manager_incarnations": 100, "accepted_fork": 50},
             "thorough": {"queue_next_block_calls": 100000, "max_queued_minus_persisted": 101}},
+)
+
+NET = dict(crate="net")
+
+PROPS["C13"] = dict(
+    title="The encrypted transport delivers exactly the bytes written, or fails",
+    level="fault_enumeration",
+    technique="runtime monitoring with tamper-point enumeration: byte-stream equality / correct-prefix oracle and wire-frame checker on real noise sessions over a scripted transport",
+    explanation="Real noise client/server streams (network crate, through the verif facade) run over an in-memory scripted transport: write sizes from {1,2,15,16,17,65518,65519,65520,"
+    "65535,200000,random} with random flush placement, read/write chunk caps {1,2,3,7,100,65536..65538,unlimited}, Pending injections, partial writes, bounded buffering "
+    "(back-pressure) and a stalling reader. Clean sessions: reader bytes == writer bytes (self-identifying content), EOF only after shutdown, the ciphertext parses as "
+    "<u16 len><len bytes> frames. For every clean session the data frames are then tampered one point at a time in fresh sessions with the same plan: bit flips in the length "
+    "field / first / middle / last ciphertext byte / auth tag, truncation at each of those positions, dropped, duplicated, swapped and replayed frames; the reader's bytes must be a "
+    "prefix of the writer's followed by an error or EOF. Deadlocks are decided in virtual time.",
+    assumptions=["snow (Noise implementation) and ChaChaPoly are trusted", "tamper points are enumerated per executed session (all frames in thorough, first/middle/last in quick); sessions are sampled"],
+    stages=[dict(name="noise", flavour="release", **NET)],
+    floors={"quick": {"clean_sessions": 400, "tampered_sessions": 4000, "tamper_detected_by_reader": 3500, "sessions_with_back_pressure": 100, "sessions_with_maximal_frame": 100, "tamper_SwapWithNext": 50, "tamper_Replay": 50},
+            "thorough": {"tampered_sessions": 100000}},
 )
